@@ -22,13 +22,28 @@ Proof. intros crc delcrc ops b s' f. apply gateway_write_recognised. apply reach
 Print Assumptions C09_gateway_write_is_recognised.
 
 (* ... and a document recognised as an own write is not imported by a read or by the delivery of ANY recorded
-   feed event (current, stale, redelivered): no revision, no sequence, no CAS change *)
+   feed event (current, stale, redelivered): no import, no revision, body and liveness untouched, still an own write
+   (the only thing such a delivery may do is migrate attachment metadata out of _sync) *)
 Theorem C09_own_write_never_imported : forall crc delcrc ops o,
   is_import_op o = true -> own crc delcrc (doc (reach crc delcrc ops)) = true ->
-  doc (after crc delcrc (reach crc delcrc ops) o) = doc (reach crc delcrc ops) /\
-  imports (after crc delcrc (reach crc delcrc ops) o) = imports (reach crc delcrc ops).
+  imports (after crc delcrc (reach crc delcrc ops) o) = imports (reach crc delcrc ops) /\
+  hist_of (doc (after crc delcrc (reach crc delcrc ops) o)) = hist_of (doc (reach crc delcrc ops)) /\
+  bstate (doc (after crc delcrc (reach crc delcrc ops) o)) = bstate (doc (reach crc delcrc ops)) /\
+  own crc delcrc (doc (after crc delcrc (reach crc delcrc ops) o)) = true.
 Proof. intros crc delcrc ops o. apply own_write_never_imported. apply reach_Inv. Qed.
 Print Assumptions C09_own_write_never_imported.
+
+(* a pending external write is never hidden by a feed delivery: whatever recorded event is delivered -- in particular
+   a DELAYED gateway-write event that makes the import listener migrate attachment metadata (a metadata-only rewrite
+   guarded by the event's CAS) -- the delivery either imports the external write or leaves the document untouched *)
+Theorem C09_feed_never_hides_external_write : forall crc delcrc ops k,
+  importable crc delcrc (doc (reach crc delcrc ops)) = true ->
+  (imports (after crc delcrc (reach crc delcrc ops) (Feed k)) = N.succ (imports (reach crc delcrc ops)) /\
+   own crc delcrc (doc (after crc delcrc (reach crc delcrc ops) (Feed k))) = true) \/
+  (doc (after crc delcrc (reach crc delcrc ops) (Feed k)) = doc (reach crc delcrc ops) /\
+   imports (after crc delcrc (reach crc delcrc ops) (Feed k)) = imports (reach crc delcrc ops)).
+Proof. intros crc delcrc ops k. apply feed_never_hides_external_write. apply reach_Inv. Qed.
+Print Assumptions C09_feed_never_hides_external_write.
 
 (* 2. no import loop: once nothing is pending, NO sequence of gateway operations -- writes (accepted or rejected),
       metadata-only rewrites, reads, feed deliveries in any order and multiplicity, races among them, external
@@ -138,4 +153,17 @@ Example C09_nonvacuous :
   bstate (doc s) = (Alive, 2) /\
   hist_of (doc s) = [R 2 1 false 2; R 1 0 false 1] /\
   importable N.succ 0 (doc (reach N.succ 0 [GwWrite 1; SdkSet 2])) = true.
+Proof. vm_compute. repeat split; reflexivity. Qed.
+
+(* ... and one with a legacy document (attachment metadata in _sync): the delayed event of the gateway write is
+   delivered after an external write; the migration does nothing and the external write is imported by the read *)
+Example C09_nonvacuous_migration :
+  let s := reach N.succ 0 [LegacyWrite 1; SdkSet 2; Feed 1; Read] in
+  imports s = 1 /\ hist_of (doc s) = [R 2 1 false 2; R 1 0 false 1] /\
+  importable N.succ 0 (doc (reach N.succ 0 [LegacyWrite 1; SdkSet 2; Feed 1])) = true /\
+  (* delivered in time, the same event migrates the metadata *)
+  match d_sync (doc (reach N.succ 0 [LegacyWrite 1])), d_sync (doc (reach N.succ 0 [LegacyWrite 1; Feed 1])) with
+  | Some a, Some b => s_att a = true /\ s_att b = false
+  | _, _ => False
+  end.
 Proof. vm_compute. repeat split; reflexivity. Qed.
